@@ -217,6 +217,22 @@ func (st *State) heap(sortName string) string {
 	if t, ok := st.heaps[h]; ok {
 		return t
 	}
+	// never touched on this path: the heap still has its value at unit entry,
+	// which is one shared constant per unit and sort
+	name, ok := st.x.initialHeaps[h]
+	if !ok {
+		st.x.freshN++
+		name = fmt.Sprintf("g_%s_init_%d", h, st.x.freshN)
+		st.x.initialHeaps[h] = name
+		st.x.w.Decl(fmt.Sprintf("(declare-fun %s () (Array Int %s))", name, sortName))
+	}
+	st.heaps[h] = name
+	return name
+}
+
+// havocHeap replaces the heap of a sort by an unconstrained one.
+func (st *State) havocHeap(sortName string) string {
+	h := st.x.w.Heap(sortName)
 	name := st.fresh(h, "(Array Int "+sortName+")")
 	st.heaps[h] = name
 	return name
@@ -227,21 +243,24 @@ func (st *State) setHeap(sortName, term string) {
 	st.heaps[h] = term
 }
 
+type heapDef struct {
+	prev, ref, val string
+}
+
 func (st *State) heapSelect(sortName, ref string) string {
 	h := st.heap(sortName)
-	// fold select over store chain when refs are syntactically equal/distinct literals
+	// fold select over the chain of named stores when refs are syntactically equal/distinct
 	for {
-		if strings.HasPrefix(h, "(store ") {
-			args, ok := splitCtor(h, "store")
-			if ok && len(args) == 3 {
-				if args[1] == ref {
-					return args[2]
-				}
-				if distinctRefs(args[1], ref) {
-					h = args[0]
-					continue
-				}
-			}
+		d, ok := st.x.heapDefs[h]
+		if !ok {
+			break
+		}
+		if d.ref == ref {
+			return d.val
+		}
+		if distinctRefs(d.ref, ref) {
+			h = d.prev
+			continue
 		}
 		break
 	}
@@ -270,7 +289,43 @@ func splitOffset(t string) (string, string) {
 
 func (st *State) heapStore(sortName, ref, val string) {
 	h := st.heap(sortName)
-	st.setHeap(sortName, app("store", h, ref, val))
+	val = st.compact(sortName, val)
+	nm := st.fresh(st.x.w.Heap(sortName), "(Array Int "+sortName+")")
+	st.assume(tEq(nm, app("store", h, ref, val)))
+	st.x.heapDefs[nm] = heapDef{prev: h, ref: ref, val: val}
+	st.setHeap(sortName, nm)
+}
+
+// compact names the large components of a constructor term so that terms stay
+// small (every later mention uses the name).
+func (st *State) compact(sortName, val string) string {
+	if len(val) < 400 {
+		return val
+	}
+	d := st.x.w.DTByName(sortName)
+	if d == nil {
+		return st.nameTerm(sortName, val)
+	}
+	args, ok := splitCtor(val, d.Ctor())
+	if !ok || len(args) != len(d.Fields) {
+		return st.nameTerm(sortName, val)
+	}
+	for i, a := range args {
+		if len(a) > 200 {
+			args[i] = st.compact(d.Fields[i].Sort, a)
+		}
+	}
+	return d.Make(args)
+}
+
+func (st *State) nameTerm(sortName, term string) string {
+	if len(term) < 200 {
+		return term
+	}
+	c := st.fresh("t", sortName)
+	st.assume(tEq(c, term))
+	termDefs[c] = term
+	return c
 }
 
 // allocRef returns a fresh, non-nil reference distinct from every existing one.
